@@ -624,6 +624,34 @@ def check_e10(ctx: RuleCtx, mod: Module) -> None:
                 f'{sname} is {sorted(strings)}; the four string token kinds are string, fstring, multiline_string, multiline_fstring', mod.assign_value(sname))
 
 
+def _row_result(r: tables.Row) -> T.Tuple[T.Any, ...]:
+    """Outcome of a row with a returned boolean expression read per world: a result that is (the negation of) one of the row's own atoms has
+    the truth value the row fixes for that atom (`matched = tid == s; ...; return matched`)."""
+    if r.outcome[0] == 'return':
+        try:
+            e = ast.parse(r.outcome[1], mode='eval').body
+        except SyntaxError:
+            return r.outcome
+        if not isinstance(e, ast.Constant):
+            a, pol = tables.canon(e, True)
+            if a in r.conds:
+                return ('return', str(r.conds[a] == pol))
+    return r.outcome
+
+
+def _judge_row(ctx: RuleCtx, mod: Module, qn: str, what: str, key: str, r: tables.Row, want_outcome: T.Tuple[T.Any, ...], want_effects: T.Tuple[str, ...]) -> None:
+    got = _row_result(r)
+    if got != want_outcome and got[0] == 'return':
+        try:
+            understood = isinstance(ast.parse(got[1], mode='eval').body, ast.Constant) or got[1] == want_outcome[-1]
+        except SyntaxError:
+            understood = False
+        if not understood and want_outcome[0] == 'return':
+            raise Undecided(f'{qn}: a row returns `{got[1]}`, an expression this rule cannot read per world')
+    ctx.require((got, r.effects) == (want_outcome, want_effects), what, mod, qn, key, f'{qn} row `{r!r}`; reference: {want_outcome} with effects {want_effects}',
+                r.path.events[-1].node if r.path.events else None)
+
+
 def check_accept(ctx: RuleCtx, mod: Module) -> None:
     """accept / accept_any / expect: consume exactly when the token matches."""
     def eff(st: ast.AST) -> T.Optional[str]:
@@ -636,11 +664,13 @@ def check_accept(ctx: RuleCtx, mod: Module) -> None:
     alt = Atom('cmp', ('eq', 'self.current.tid', 'ARG1'))
     for r in tab.rows:
         v = r.conds.get(match, r.conds.get(alt))
+        if not r.conds and 'self.getsym()' in r.effects:
+            ctx.violation(mod, 'Parser.accept', 'accept: token consumed unconditionally', 'accept advances to the next token on a row that does not depend on whether the current token matches', fn)
+            continue
         if v is None or len(r.conds) != 1:
             raise Undecided(f'Parser.accept: unknown row {r!r}')
         want = (('return', 'True'), ('self.getsym()',)) if v else (('return', 'False'), ())
-        ctx.require((r.outcome, r.effects) == want, f'accept: token {"matches -> consumed, True" if v else "differs -> untouched, False"}', mod, 'Parser.accept',
-                    f'accept row match={v}', f'accept row `{r!r}`; reference: {want}', r.path.events[-1].node)
+        _judge_row(ctx, mod, 'Parser.accept', f'accept: token {"matches -> consumed, True" if v else "differs -> untouched, False"}', f'accept row match={v}', r, want[0], want[1])
     ctx.floor('accept rows', len(tab.rows), 2)
     fn = mod.func('Parser.accept_any')
     tab = tables.extract(fn, effects=eff, name='Parser.accept_any')
@@ -650,8 +680,7 @@ def check_accept(ctx: RuleCtx, mod: Module) -> None:
         if v is None or len(r.conds) != 1:
             raise Undecided(f'Parser.accept_any: unknown row {r!r}')
         want = (('return', 'self.current.tid'), ('self.getsym()',)) if v else (('return', "''"), ())
-        ctx.require((r.outcome, r.effects) == want, f'accept_any: token {"in table -> consumed, its id" if v else "not in table -> untouched, empty"}', mod, 'Parser.accept_any',
-                    f'accept_any row in={v}', f'accept_any row `{r!r}`; reference: {want}', r.path.events[-1].node)
+        _judge_row(ctx, mod, 'Parser.accept_any', f'accept_any: token {"in table -> consumed, its id" if v else "not in table -> untouched, empty"}', f'accept_any row in={v}', r, want[0], want[1])
     ctx.floor('accept_any rows', len(tab.rows), 2)
     for name in ('expect', 'block_expect'):
         fn = mod.func(f'Parser.{name}')
@@ -661,7 +690,10 @@ def check_accept(ctx: RuleCtx, mod: Module) -> None:
             if len(acc) != 1 or len(r.conds) != 1:
                 raise Undecided(f'Parser.{name}: unknown row {r!r}')
             v = acc[0][1]
-            ok = r.outcome == ('return', 'True') if v else (r.outcome[0] == 'raise' and r.outcome[1] in PARSE_ERRORS)
+            got = _row_result(r)
+            ok = got == ('return', 'True') if v else (got[0] == 'raise' and got[1] in PARSE_ERRORS)
+            if not ok and v and got[0] == 'return' and got[1] not in ('True', 'False', 'None'):
+                raise Undecided(f'Parser.{name}: a row returns `{got[1]}`, an expression this rule cannot read per world')
             ctx.require(ok, f'{name}: {"accepted -> True" if v else "otherwise a parse error"}', mod, f'Parser.{name}', f'{name} row accepted={v}',
                         f'{name} row `{r!r}` - a missing token must raise a parse error', r.path.events[-1].node)
 
